@@ -650,6 +650,10 @@ const evalTimeout = 10 * time.Second
 // run reports the first hanging case).
 var hung bool
 
+// repeatCalls makes runGo evaluate every case twice on the same evaluator (determinism; C12, C19)
+var repeatCalls bool
+var repeatMismatch string
+
 // runGo evaluates the case with the real library and encodes what was observed (Wire.v e_outcome).
 func runGo(c *EvalCase) *T {
 	if hung {
@@ -673,6 +677,15 @@ func runGo(c *EvalCase) *T {
 		o.env, o.ok = buildEnv(c)
 		if o.ok {
 			o.res = o.env.ev.Evaluate(o.env.top, o.env.ctx, o.env.recorder)
+			if repeatCalls {
+				first := L(wireDetail(o.res.Detail), Ab(o.res.IsExperiment), LL(o.env.log.items)).String()
+				o.env.log.items = nil
+				res2 := o.env.ev.Evaluate(o.env.top, o.env.ctx, o.env.recorder)
+				second := L(wireDetail(res2.Detail), Ab(res2.IsExperiment), LL(o.env.log.items)).String()
+				if first != second {
+					repeatMismatch = "repeating the call on the same evaluator gave a different result / events / log lines: first " + first + " second " + second
+				}
+			}
 		}
 	}()
 	select {
